@@ -53,7 +53,7 @@ fn example(file: PeFile<'_>) -> pelite::Result<()> {
 ```
 */
 
-use std::{fmt, ops};
+use std::{cmp, fmt, ops};
 
 use crate::util::CStr;
 use crate::{Error, Result};
@@ -352,7 +352,7 @@ impl<'a, P: Pe<'a>> By<'a, P> {
 	}
 	/// Iterate over functions exported by name, returning their name and index in the functions table.
 	pub fn iter_name_indices<'s>(&'s self) -> impl 's + Clone + Iterator<Item = (Result<&'a CStr>, usize)> {
-		(0..self.names().len() as u32).map(move |hint| (self.name_of_hint(hint as usize), self.name_indices[hint as usize] as usize))
+		(0..cmp::min(self.names.len(), self.name_indices.len()) as u32).map(move |hint| (self.name_of_hint(hint as usize), self.name_indices[hint as usize] as usize))
 	}
 }
 impl<'a, P: Pe<'a>> fmt::Debug for By<'a, P> {
